@@ -159,6 +159,8 @@ pub struct Prop {
     pub selftest: Option<fn() -> Result<u64, String>>,
     /// coverage-guided stage of the thorough tier (cargo-fuzz / libFuzzer)
     pub fuzz: Option<FuzzSpec>,
+    /// thorough tier: run the quick tier again in the `preserve_order` build
+    pub insertion_order_stage: bool,
 }
 
 #[derive(Clone)]
@@ -441,6 +443,7 @@ pub fn guarded<T>(f: impl FnOnce() -> T) -> Result<T, String> {
 pub struct RunCfg {
     pub seed: u64,
     pub thorough: bool,
+    pub write_evidence: bool,
 }
 
 pub struct Violation {
@@ -867,6 +870,41 @@ pub fn run_prop(p: &Prop, cfg: &RunCfg, only_sub: Option<&str>) -> i32 {
         }
     }
 
+    // second build (serde_json `preserve_order`): the quick tier again, with documents whose member order is arbitrary
+    let mut po_stats = Value::Null;
+    if cfg.thorough && only_sub.is_none() && p.insertion_order_stage && !cfg!(feature = "preserve_order") {
+        let exe = verif_dir().join("harness").join("target-po").join("release").join("jpv");
+        if exe.exists() {
+            let ts = std::time::Instant::now();
+            let out = std::process::Command::new(&exe)
+                .args(["run", p.id, "--tier", "quick", "--no-evidence"])
+                .env("VERIF_SEED", cfg.seed.to_string())
+                .env("VERIF_DIR", verif_dir())
+                .output();
+            match out {
+                Ok(o) => {
+                    let text = String::from_utf8_lossy(&o.stdout).to_string();
+                    let err = String::from_utf8_lossy(&o.stderr).to_string();
+                    let summary = err.lines().rev().find(|l| l.starts_with(p.id)).unwrap_or("").to_string();
+                    let evals = summary.split_whitespace().nth(1).and_then(|x| x.parse::<u64>().ok()).unwrap_or(0);
+                    total.evaluations += evals;
+                    po_stats = json!({"build": "serde_json with preserve_order (members in insertion order)", "exit": o.status.code(), "summary": summary, "wall_s": ts.elapsed().as_secs_f64()});
+                    for l in text.lines().filter(|l| l.starts_with("VIOLATION ")) {
+                        let path = l.split("replay=").nth(1).unwrap_or("").to_string();
+                        let detail = err.lines().skip_while(|x| !x.trim_start().starts_with('[')).take(2).collect::<Vec<_>>().join(" ");
+                        violations.push(("insertion-order-build".to_string(), Failure::new(format!("with members in insertion order (preserve_order build): {} (replay of that build: {})", detail, path), json!({"replay_of_second_build": path})), None));
+                    }
+                    if o.status.code() == Some(2) {
+                        eprintln!("note: the preserve_order build could not decide (exit 2): {}", err.lines().rev().take(3).collect::<Vec<_>>().join(" | "));
+                    }
+                }
+                Err(e) => po_stats = json!({"error": format!("cannot run the preserve_order build: {}", e)}),
+            }
+        } else {
+            po_stats = json!({"error": "preserve_order build not present (./check builds it for the thorough tier)"});
+        }
+    }
+
     // known findings: one line per listed open finding of this property
     let mut kf = vec![];
     for f in &findings().open {
@@ -920,6 +958,8 @@ pub fn run_prop(p: &Prop, cfg: &RunCfg, only_sub: Option<&str>) -> i32 {
             "not_judged": total.not_judged,
             "selftest_cases": selftests,
             "fuzz": fuzz_stats,
+            "insertion_order_build": po_stats,
+            "member_order_of_value": if cfg!(feature = "preserve_order") { "insertion order (serde_json preserve_order)" } else { "sorted (serde_json default)" },
             "shards": SHARDS,
         },
         "assumptions": p.assumptions,
@@ -928,7 +968,7 @@ pub fn run_prop(p: &Prop, cfg: &RunCfg, only_sub: Option<&str>) -> i32 {
     });
     let evdir = verif_dir().join("evidence");
     let _ = std::fs::create_dir_all(&evdir);
-    if only_sub.is_none() {
+    if only_sub.is_none() && cfg.write_evidence {
         let _ = std::fs::write(
             evdir.join(format!("{}.json", p.id)),
             serde_json::to_string_pretty(&ev).unwrap_or_default(),
